@@ -32,7 +32,7 @@ struct WState { volatile bool in_inf = false; volatile uint64_t since = 0; volat
 std::vector<WState> wst;
 
 // hand-off sub-workload (destroy right after wait)
-int handoff_rounds = 0; bool handoff_os = false;
+int handoff_rounds = 0; bool handoff_os = false; int handoff_delay[16];
 semaphore* volatile mailbox = nullptr;
 volatile int handoff_done = 0;
 
@@ -45,7 +45,8 @@ void gen_plan() {
     n_psig = sim::rnd(3); n_osig = sim::rnd(3);
     if (n_psig + n_osig == 0) n_psig = 1;
     n_intr = sim::rnd(2) ? 1 + sim::rnd(2) : 0;
-    handoff_rounds = sim::rnd(3) == 0 ? 1 + sim::rnd(6) : 0; handoff_os = sim::rnd(2);
+    handoff_rounds = sim::rnd(2) == 0 ? 1 + sim::rnd(12) : 0; handoff_os = sim::rnd(2);
+    for (auto& d : handoff_delay) d = sim::rnd(8);
     int nth = n_waiters + n_psig + n_intr;
     scripts.resize(nth); role.resize(nth); intr_sent.assign(nth, 0); wst.resize(nth);
     for (int t = 0; t < nth; t++) {
@@ -176,6 +177,9 @@ void handoff_waiter(int t) {
     for (int r = 0; r < handoff_rounds; r++) {
         semaphore* s = new semaphore(0);
         { sim::NoSched ns; mailbox = s; sim::ev(0xAA01, r); }
+        // arrive before, while or after the signaller is inside signal()
+        switch (handoff_delay[r % 16]) { case 0: break; case 1: thread_yield(); break; case 2: thread_usleep(20); break; case 3: thread_usleep(60); break;
+                                          default: for (int k = handoff_delay[r % 16]; k > 3; k--) sim::yield_point(); }
         { phx::Where w(me, "handoff-wait", r); s->wait(1); }
         // wait() has returned: the semaphore may be destroyed immediately
         sim::poison(s, sizeof(*s), "semaphore destroyed right after wait() returned");
